@@ -30,8 +30,21 @@ fn sim_item(
 ) -> Item {
     let mut spec = (*sc.spec).clone();
     spec.threads = threads;
+    // Reference for the executor-independence clause of C04: the same scenario
+    // on the single-threaded executor.
+    let mut spec_st = spec.clone();
+    spec_st.threads = 1;
+    let sc_st = Arc::new(Scenario { spec: Arc::new(spec_st), cmds: sc.cmds.clone(), label: sc.label.clone() });
     let sc = Arc::new(Scenario { spec: Arc::new(spec), cmds: sc.cmds, label: sc.label });
     let key = name.clone();
+    let key2 = name.clone();
+    let prepare = move || {
+        if invariant {
+            let out = world::run_once(&sc_st, &[], false);
+            let an = oracle::analyze(&sc_st, &out);
+            FIRST_SUMMARY.lock().unwrap_or_else(|e| e.into_inner()).insert(key2.clone(), format!("{:?}", an.summary));
+        }
+    };
     Item::new(&name, 200_000, bq, bt, move || {
         let out = world::run_once(&sc, &[], false);
         let an = oracle::analyze(&sc, &out);
@@ -54,13 +67,14 @@ fn sim_item(
                     if *f != summary {
                         let f = f.clone();
                         drop(g);
-                        panic!("[outcome_varies] handler invocations / results / sink contents depend on the schedule: {} vs {}", f, summary);
+                        panic!("[outcome_varies] handler invocations / results / sink contents on the multi-threaded executor differ from the single-threaded executor / another schedule: {} vs {}", f, summary);
                     }
                 }
             }
         }
         obs(format!("{:?}|{:?}", an.orders, an.summary.results));
     })
+    .prepare(prepare)
 }
 
 pub const TAGS_ALL_DELIVERY: &[&str] = &[
